@@ -12,6 +12,7 @@ CHECKS = {
                      'Pangaea.C11.valRange_spec', 'Pangaea.C11.strRange_spec', 'Pangaea.C11.arrIndex_eq_spec',
                      'Pangaea.C11.slice_subset', 'Pangaea.C11.zero_step'],
         'harness': ['C11'],
+        'shards': 8,
         'spec_is_function': True,
         'exhaustive': True,
         'rule': 'exhaustive: lengths 0..5 (7 thorough) x start/stop/step in [-n-2,n+2] + nil + int64 extremes, arrays (elements = positions) '
@@ -27,6 +28,7 @@ CHECKS = {
                      'Pangaea.C10.tdiv_fits', 'Pangaea.C10.floorDiv_exact', 'Pangaea.C10.mod_spec', 'Pangaea.C10.zero_divisor',
                      'Pangaea.C10.div_is_float_quotient', 'Pangaea.C10.cmp_spec', 'Pangaea.C10.pow_exact'],
         'harness': ['C10'],
+        'shards': 4,
         'spec_is_function': True,
         'exhaustive': True,
         'rule': 'exhaustive [-24,24]^2 (40 thorough) for + - * ** / // % <=> and unary -, nil right operand, boundary lattice (0, +-1, 2^31, 2^53+-1, sqrt(2^63), 2^62, int64 extremes)^2, '
@@ -34,5 +36,20 @@ CHECKS = {
                 'non-trivial = both operands non-zero; distinct by (case line, source text); spec "-" = result does not fit int64 (unconstrained)',
         'trusted_base': [KERNEL, AX, TIE, 'model Pangaea/Props/IntArith.lean is a hand transcription of props/int_props.go operators', 'math/big Exp is exact; float64 division and int->float conversion are not modelled in proofs (Lean Float used only in the executable driver)'],
         'assumptions': ['operands are int64', 'results that do not fit 64 bits are outside the property', '`/` compared bit-for-bit with IEEE double division of the converted operands'],
+    },
+    'C15': {
+        'lean_modules': ['Pangaea.Theorems.C15'],
+        'theorem_modules': ['Pangaea.Theorems.C15'],
+        'theorems': ['Pangaea.C15.evalBody_eq_spec', 'Pangaea.C15.defers_are_reached', 'Pangaea.C15.evalDefer_log', 'Pangaea.C15.evalStmts_outcome'],
+        'harness': ['C15'],
+        'shards': 14,
+        'spec_is_function': True,
+        'exhaustive': True,
+        'rule': 'exhaustive: every function body of <= 2 (3 thorough) statements over 21 statement kinds (print, value, plain/guarded defer of print/raising call/failing expr/nested call, '
+                'return, guarded return, raise, guarded raise, failing expr, yield, nested calls of helper functions with their own defers) = an exit of every kind at every statement index; '
+                'random bodies up to 6 statements with 2-4 nested functions. Observables: stdout marker sequence + final value / error kind and message, vs the Lean statement-list model '
+                'and the declarative reference. non-trivial = body has a defer and a statement that can leave the body; distinct by program text',
+        'trusted_base': [KERNEL, AX, TIE, 'model Pangaea/Eval/Stmts.lean is a hand transcription of evaluator/eval_program.go (_evalStmts, evalDefer, evalStmts); the statement evaluator is abstract in the theorems and instantiated by a small statement language in Pangaea/Drv/C15.lean'],
+        'assumptions': ['statement and deferred-expression semantics are arbitrary state transformers in the theorems', 'guard truthiness is covered by C12; here guards are literals of known truthiness'],
     },
 }
